@@ -13,7 +13,7 @@ CHECKS = [
              "between, every node sending to every other (two messages before the target reads) for ID sets that coincide numerically with address "
              "values, master-side releases, 'only one node still accepts children' for every contact address and for a level-4 node; judged against the master's public table and "
              "all queues; with a loss word only no-exception / termination / valid-or-None are claimed.  Schedules are sampled: the "
-             "weakest claim of the set",
+             "weakest claim of the set; two IDs release and re-join with their addresses swapped between two sends of a third node; every case starts from a drawn value of the 16-bit frame-id counter",
      "design_ref": "4/C17", "note": SIM_NOTE + "; in concurrent phases an answer of -1 (no answer) is accepted; nodes orphaned by a "
      "parent that released or moved are not expected to be reachable",
      "technique": "property-based testing: Hypothesis-generated multi-node mesh scenarios (concurrent joins, scripted calls, staggered concurrent lookups) on the discrete-event simulation"},
@@ -23,7 +23,7 @@ CHECKS = [
              "ACKs) and absent / invalid / own destinations; the listening invariant is read from the simulated chip every time any "
              "public call - including each update() of every node - returns, and on all nodes at quiescence; an enumerated family "
              "has the application stop listening / power down and then write (to a neighbour, through a parent, to nobody, to "
-             "itself); histories and schedules are sampled",
+             "itself); histories and schedules are sampled; every case starts from a drawn value of the 16-bit frame-id counter",
      "design_ref": "4/C07", "note": SIM_NOTE + "; expected pipe addresses from vlib/ref/netaddr.py for the node's current public "
      "node_address / multicast_level / allow_multicast",
      "technique": "stateful property-based testing: Hypothesis-generated call histories with fault injection, chip-level invariant checked after every returning call"},
@@ -33,7 +33,7 @@ CHECKS = [
              "requests, re-requests, releases by message and API and save/load cycles, for five pre-filled tables, plus a sweep of a "
              "request through every one of the 155 relay addresses of level 1..3 with empty / nearly full / full parents, and a "
              "sweep of a second request arriving while the master waits for the NETWORK_ACK of a routed reply, are enumerated; Hypothesis draws ids 1..255 and histories to 14 events, and tables of 0..255 entries for persistence; the "
-             "lease-table invariants of the statement are evaluated on dhcp_dict after every event, and every copy of a reply on air must agree",
+             "lease-table invariants of the statement are evaluated on dhcp_dict after every event, and every copy of a reply on air must agree; a sweep 'relay full, a new ID refused, one child released by message / API, another new ID must be served' over all 155 relays and the master",
      "design_ref": "4/C16", "note": SIM_NOTE + "; weak liveness (a request with a free slot is answered) is assumed as part of 'a released address becomes available again'",
      "technique": "model-based property testing: bounded-exhaustive event words + Hypothesis histories with lease-table invariants checked after every event"},
     {"property_id": "C14", "level": "exploration",
@@ -44,7 +44,7 @@ CHECKS = [
              "multicast; after quiescence all "
              "queues are compared with the reference set of level members, the air log is checked for the level address, single "
              "attempts, absence of ACK packets, relay re-broadcasts and the set of levels a relayed message may reach; an enumerated frame-by-frame "
-             "scenario injects plain frames and fragments of longer multicasts into a level 1..3 relay (each re-broadcast once, byte for byte, to the next level); schedules are sampled",
+             "scenario injects plain frames and fragments of longer multicasts into a level 1..3 relay (each re-broadcast once, byte for byte, to the next level); schedules are sampled; a child's unicast landing in a member's RX FIFO together with the multicast; every case starts from a drawn value of the 16-bit frame-id counter",
      "design_ref": "4/C14", "note": SIM_NOTE + "; a receiver whose 3-level RX FIFO was overrun by an unacknowledged fragment burst is "
      "not judged for reception (counted); relay multiplicity scoped as in DESIGN 4/C14",
      "technique": "enumeration of sender-class x level + Hypothesis-generated populated topologies on the multi-node simulation, set-equality oracle over all queues and the air log"},
@@ -55,7 +55,7 @@ CHECKS = [
              "multicast_level overrides on every node, header objects carrying a stale origin, 24-byte messages, a sender whose own queue holds 0..9 unread frames; "
              "Hypothesis draws routes over the whole address space, types 0..255, timeouts, MCU timing models, bystanders and faults "
              "beyond it; originators and addressees of type-193 frames, the arrival time of the NETWORK_ACK at the origin's chip and "
-             "the duration of write() are taken from the medium's ground-truth log",
+             "the duration of write() are taken from the medium's ground-truth log; the same frame object written once or twice before the judged write; every case starts from a drawn value of the 16-bit frame-id counter",
      "design_ref": "4/C13", "note": SIM_NOTE + "; arrivals within +-(2 ms + 40 SPI transactions) of the deadline are labelled ambiguous and not judged",
      "technique": "fault-position enumeration + Hypothesis-generated routes/timeouts on the multi-node simulation, oracle from the ground-truth air log"},
     {"property_id": "C05", "level": "exploration",
@@ -86,7 +86,7 @@ CHECKS = [
              "re-entry and advertise() calls whose chunk lists are constructed around the capacity boundary; the W_TX_PAYLOAD bytes "
              "and RF_CH are read from the simulated chip and parsed by an independent bit-serial BLE link-layer reference "
              "(de-whitening with the channel implied by RF_CH, PDU header, length, AdvA, AD structures verbatim, CRC-24); "
-             "len_available() and the ValueError boundary are compared with the arithmetic of the BLE packet layout",
+             "len_available() and the ValueError boundary are compared with the arithmetic of the BLE packet layout; another driver object on the same radio has its own with-block (own channel and payload length) between two blocks of the FakeBLE object",
      "design_ref": "4/C18", "note": "trusted base: vlib/ref/ble.py (written from the Core specification, reproduces the published "
      "channel-37 whitening sequence and the CRC test vector) and the chip model's SPI trace; the library's own receiver is not used as oracle",
      "technique": "property-based testing: boundary enumeration + Hypothesis histories with an independent BLE reference decoder as oracle"},
@@ -129,7 +129,7 @@ CHECKS = [
              "to a direct neighbour and through one router, and after every history of <= 3 (quick) / 5 (thorough) sender "
              "configuration calls (fragmentation on/off, max_message_length) at ten boundary lengths, after earlier messages of the same sender, with the first k attempts of one fragment lost, and "
              "through multicast() with int and one-character str types, the on-air frames captured from the simulated medium and compared "
-             "field by field with the reference fragmenter and fed to a reference TMRh20-style reassembler",
+             "field by field with the reference fragmenter and fed to a reference TMRh20-style reassembler; the same header and message objects sent again after the node received another frame (the application's message object must be unchanged); refused 0..7-byte buffers leave header and frame as they were",
      "design_ref": "4/C11", "note": SIM_NOTE + "; vlib/ref/frag.py is the specification of the TMRh20 fragment format",
      "technique": "property-based testing: round-trip + differential against reference fragmenter/reassembler on captured on-air frames"},
     {"property_id": "C09", "level": "exploration",
@@ -148,7 +148,7 @@ CHECKS = [
              "keyword), a second radio with its own driver object polled before every accessor, and Hypothesis op lists mixing traffic (peer sends to any pipe, write/CE/send to listening, absent or ACK-payload peers, "
              "load_ack, role toggles) with every accessor in all its argument forms, in dynamic / static per-pipe / mixed payload "
              "modes; each accessor is compared with the simulated chip's FIFOs, latched flags, STATUS byte of the last "
-             "transaction, retransmission count in the air log and IRQ pin; exhaustive only for the stated words",
+             "transaction, retransmission count in the air log and IRQ pin; exhaustive only for the stated words; on plus and non-plus chips",
      "design_ref": "4/C10", "note": SIM_NOTE + "; the executor lets radio activity finish before each op so no event races an accessor",
      "technique": "property-based testing: bounded-exhaustive op words + Hypothesis-generated traffic/accessor histories against simulated-chip ground truth"},
     {"property_id": "C20", "level": "exploration",
@@ -162,7 +162,7 @@ CHECKS = [
              "the received sequence, pipe, any(), the W_TX_PAYLOAD bytes on the SPI bus and the caller's buffers are compared "
              "with the documented padding/truncation/rejection rule; plus ping-pong exchanges (both ends switch roles; the answer read at once or only after the next "
              "send_only send), write() as a call form, calls during which the peer is deaf, configuration pre-histories and call "
-             "orders, per-pipe payload modes (int / list / tuple forms), enumerated write(write_only=True) bursts with CE raised by the application, ACK payloads left over at a role swap, and long lists (4..12 payloads) with a receiver task draining the FIFO concurrently; sampled inputs, no exhaustiveness claimed",
+             "orders, per-pipe payload modes (int / list / tuple forms), enumerated write(write_only=True) bursts with CE raised by the application, ACK payloads left over at a role swap, and long lists (4..12 payloads) with a receiver task draining the FIFO concurrently; sampled inputs, no exhaustiveness claimed; on plus and non-plus chips",
      "design_ref": "4/C01", "note": SIM_NOTE,
      "technique": "property-based testing (Hypothesis composite generator) with a documented-rule oracle on a simulated link"},
     {"property_id": "C03", "level": "exploration",
@@ -178,14 +178,14 @@ CHECKS = [
              "for address widths 3..5, Hypothesis "
              "sequences to length 40 beyond; registers after every call are compared with the reference model of the user's "
              "pipe 0, CE/role-change discipline is read from the chip trace, and each sequence ends with a behavioural probe "
-             "(packet to the user's address / send() to a listening peer)",
+             "(packet to the user's address / send() to a listening peer); calls the driver refuses (pipe 6 / -1, empty address) are part of the alphabet: nothing may change, CE included",
      "design_ref": "4/C08", "note": SIM_NOTE,
      "technique": "bounded-exhaustive call-sequence enumeration + Hypothesis sequences vs reference model, with on-air probes"},
     {"property_id": "C02", "level": "fault_enumeration",
      "text": "every D/P/A outcome word over the (1+arc)(1+force_retry) attempts is enumerated for arc<=1 (quick) / arc<=2 "
              "(thorough), force_retry<=1, x {auto-ack, ACK payload loaded/empty} x send_only x follow-up call, plus "
              "no-ack modes and a deaf peer; Hypothesis histories (arc 0..15, all ard codes, force_retry 0..3, words to 64 "
-             "symbols, 1..6 calls incl. list input) beyond it; with read() / listen round trips (also with an uncollected ACK payload) / with-block re-entry between calls, neutral configuration pre-histories and "
+             "symbols, 1..6 calls incl. list input) beyond it; with read() / listen round trips (also with an uncollected ACK payload) / with-block re-entry / a clear-the-flags step (CE low, clear_status_flags(), update()) between calls, on plus and non-plus chips, neutral configuration pre-histories and "
              "short TX addresses after a pipe-0 history; each call's result, attempt count, duration and every on-air payload are "
              "judged against the medium's ground-truth log (an ACK the peer sent but the driver's own pipe-0 state made "
              "inaudible counts as acknowledged)",
